@@ -5,6 +5,7 @@ import FFSM2.TaskList
 import FFSM2.PlanList
 import FFSM2.Dispatch
 import FFSM2.Ancestors
+import FFSM2.Layout
 import FFSM2.Driver.Util
 /- Line-protocol engines for the container models (one output line per input line). -/
 namespace FFSM2.Driver
@@ -161,5 +162,13 @@ def layerName : Ancestors.Layer → String
 
 def ancestorLines (k : Nat) : List String :=
   allMethods.map (fun m => s!"{methodName m} " ++ joinWith "," ((Ancestors.deep k m).map layerName))
+
+/-! ### layout (C18): offset / alignment / size of `TransitionT<P>` (base 3) and `TaskT<P>` (base 2) -/
+def layoutLines : List String :=
+  let payloads : List (Nat × Nat) := [(1, 1), (2, 2), (4, 4), (8, 16), (16, 32), (8, 8), (4, 12)]
+  ([("Transition", 3), ("Task", 2)] : List (String × Nat)).flatMap (fun b =>
+    payloads.map (fun pa =>
+      let A := pa.1; let size := pa.2
+      s!"{b.1} A={A} size={size} off={Layout.storageOffset b.2 A none} align={Layout.structAlign A none} sizeof={Layout.structSize b.2 A size none}"))
 
 end FFSM2.Driver
